@@ -207,6 +207,104 @@ class ExprGen:
         return self.const(w)
 
 
+class StrExprGen(ExprGen):
+    """expressions over string variables with finite domains (plus the bit-vector part of ExprGen for the other variables);
+    only the pure sequence operations: anything that goes through Int2BV/BV2Int (lengths, indices, conversions) makes Z3's
+    string solver give up within the first few queries"""
+
+    POOL = ["", "a", "b", "ab", "ba", "c", "z", "abc"]
+
+    def __init__(self, rng, variables, ops_allowed=None, domains=None):
+        super().__init__(rng, {n: w for n, w in variables.items() if w >= 0}, ops_allowed)
+        self.vars = variables
+        self.strs = [n for n, w in variables.items() if w == -1]
+        self.domains = domains or {}
+
+    def sconst(self):
+        r = self.r
+        if r.chance(60) and self.strs:
+            return ["sconst", r.choice(self.domains[r.choice(self.strs)])]
+        return ["sconst", r.choice(self.POOL)]
+
+    def svar(self):
+        return ["var", self.r.choice(self.strs)]
+
+    def sexpr(self, depth):
+        r = self.r
+        if depth <= 0 or r.chance(40):
+            return self.svar() if r.chance(75) else self.sconst()
+        k = r.below(100)
+        if k < 45:
+            return ["sconcat", self.sexpr(depth - 1), self.sexpr(depth - 1)]
+        if k < 70:
+            return ["sreplace", self.sexpr(depth - 1), self.sconst(), self.sconst()]
+        if k < 90:
+            return ["substr", r.range(0, 2), r.range(0, 3), self.sexpr(depth - 1)]
+        return ["ite", self.spred(0), self.sexpr(depth - 1), self.sexpr(depth - 1)]
+
+    def spred(self, depth):
+        r = self.r
+        k = r.below(100)
+        x = self.svar()
+        if k < 30:
+            return ["seq", x, self.sconst()]
+        if k < 42:
+            return ["sne", x, self.sconst()]
+        if k < 55:
+            return ["scontains", self.sexpr(depth), self.sconst()]
+        if k < 67:
+            return ["sprefix", self.sconst(), self.sexpr(depth)]
+        if k < 78:
+            return ["ssuffix", self.sconst(), self.sexpr(depth)]
+        if k < 90:
+            return [r.choice(["seq", "sne"]), self.sexpr(depth), self.sexpr(depth)]
+        return ["bor", ["seq", x, self.sconst()], ["seq", x, self.sconst()]]
+
+    def boolean(self, depth):
+        r = self.r
+        if self.bvs and r.chance(25):
+            return super().boolean(depth)
+        if depth <= 0 or r.chance(50):
+            return self.spred(max(depth, 0))
+        k = r.below(100)
+        if k < 35:
+            return ["band", self.boolean(depth - 1), self.boolean(depth - 1)]
+        if k < 70:
+            return ["bor", self.boolean(depth - 1), self.boolean(depth - 1)]
+        return ["bnot", self.boolean(depth - 1)]
+
+    def constraint(self, ref=None):
+        r = self.r
+        if self.bvs and r.chance(20):
+            return super().constraint(ref)
+        k = r.below(100)
+        if k < 60:
+            return self.spred(1)
+        if k < 75:
+            return ["bnot", self.spred(1)]
+        return self.boolean(1)
+
+    def query(self):
+        r = self.r
+        if self.bvs and r.chance(25):
+            return super().query()
+        k = r.below(100)
+        if k < 40:
+            return self.svar()
+        if k < 85:
+            return self.sexpr(1)
+        return self.sexpr(2)
+
+
+STR_SHAPES = [
+    [["s", -1, ["", "a", "b", "ab", "ba", "abc"]], ["t", -1, ["a", "ab", "b"]]],
+    [["s", -1, ["a", "b", "aa", "ab"]], ["a", 3]],
+    [["s", -1, ["", "a", "ab", "abc", "b", "bc", "c"]]],
+    [["s", -1, ["x", "xy", "yx"]], ["t", -1, ["", "y", "x"]], ["p", 0]],
+    [["s", -1, ["a", "z"]], ["t", -1, ["a", "b", "c"]], ["u", -1, ["", "ab"]]],
+]
+
+
 # ---------------------------------------------------------------------------------------------
 
 DEFAULT_WEIGHTS = {
@@ -236,13 +334,19 @@ class HistoryGen:
         r = self.r
         shapes = profile.get("var_shapes", VAR_SHAPES)
         self.varlist = [list(v) for v in r.choice(shapes)]
-        self.vars = {n: w for n, w in self.varlist}
-        self.order = [n for n, _ in self.varlist]
+        self.vars = {v[0]: v[1] for v in self.varlist}
+        self.order = [v[0] for v in self.varlist]
+        self.domains = {v[0]: list(v[2]) for v in self.varlist if len(v) > 2}
         self.flag = "f" if "f" in self.vars else None
         gen_vars = {n: w for n, w in self.vars.items() if n != self.flag} or self.vars
-        self.eg = ExprGen(r, gen_vars, profile.get("ops_allowed"))
-        self.eg_approx = ExprGen(r, gen_vars, profile.get("approx_ops_allowed", profile.get("ops_allowed")))
-        self.eg_approx.simple = bool(profile.get("approx_simple_constraints"))
+        if self.domains:
+            self.eg = StrExprGen(r, gen_vars, profile.get("ops_allowed"), self.domains)
+            self.eg_approx = self.eg
+        else:
+            self.eg = ExprGen(r, gen_vars, profile.get("ops_allowed"))
+            self.eg_approx = ExprGen(r, gen_vars, profile.get("approx_ops_allowed", profile.get("ops_allowed")))
+        if not self.domains:
+            self.eg_approx.simple = bool(profile.get("approx_simple_constraints"))
         self.ref_kind = profile.get("ref", "enum")
         self.dry = Machine({"config": {"vars": self.varlist, "ref": self.ref_kind}, "ops": []}, None)
         self.ops = []
@@ -302,9 +406,13 @@ class HistoryGen:
             m = list(r.choice(M))
             i = r.below(len(m))
             w = self.vars[self.order[i]]
-            m[i] = (m[i] ^ (1 << r.below(max(w, 1)))) & ((1 << max(w, 1)) - 1)
+            if w == -1:
+                m[i] = r.choice(self.domains[self.order[i]])
+            else:
+                m[i] = (m[i] ^ (1 << r.below(max(w, 1)))) & ((1 << max(w, 1)) - 1)
             return m
-        return [r.below(2 if self.vars[n] == 0 else 1 << self.vars[n]) for n in self.order]
+        return [r.choice(self.domains[n]) if self.vars[n] == -1 else r.below(2 if self.vars[n] == 0 else 1 << self.vars[n])
+                for n in self.order]
 
     def assignment_constraint(self, m, subset=None):
         cs = []
@@ -314,6 +422,8 @@ class HistoryGen:
             w = self.vars[n]
             if w == 0:
                 cs.append(["var", n] if m[i] else ["bnot", ["var", n]])
+            elif w == -1:
+                cs.append(["seq", ["var", n], ["sconst", m[i]]])
             else:
                 cs.append(["eq", ["var", n], ["const", m[i], w]])
         return cs
@@ -411,14 +521,23 @@ class HistoryGen:
             n = r.choice([1, 2, max(1, nt), nt + 1, max(1, nt - 1), r.range(1, 12)])
             op.update(op="batch_eval", es=es, n=n, extra=ex)
         elif kind in ("min", "max"):
-            op.update(op=kind, e=self.qexpr(h), signed=r.chance(45), extra=self.extras(h))
+            e = self.qexpr(h)
+            if width_of(e, self.vars) <= 0:
+                # no optimum of a string: ask for its values instead
+                ex = self.extras(h)
+                op.update(op="eval", e=e, n=self.pick_n(ref, e, ex), extra=ex)
+            else:
+                op.update(op=kind, e=e, signed=r.chance(45), extra=self.extras(h))
         elif kind == "solution":
             e = self.qexpr(h)
             ex = self.extras(h)
             w = width_of(e, self.vars)
             V = sorted(ref.values(e, ex))
             k = r.below(100)
-            if k < 40 and V:
+            if w == -1:
+                eg = self.egf(h)
+                v = r.choice(V) if (k < 45 and V) else (eg.sconst()[1] if k < 80 else eg.sexpr(1))
+            elif k < 40 and V:
                 v = r.choice(V)
             elif k < 75:
                 v = r.below(1 << w)
@@ -429,7 +548,7 @@ class HistoryGen:
             op.update(op="solution", e=e, v=v, extra=ex)
         elif kind in ("is_true", "is_false"):
             rc_ = self._recent(h, "c")
-            if r.chance(self.p.get("truth_template_pct", 15)) and self.egf(h).bvs:
+            if r.chance(self.p.get("truth_template_pct", 15)) and self.egf(h).bvs and not self.domains:
                 e = self.truth_template(h, kind == "is_true")
             else:
                 e = r.choice(rc_) if (rc_ and r.chance(50)) else self.egf(h).boolean(1)
@@ -693,7 +812,7 @@ class HistoryGen:
         """enumerate two expressions exhaustively one after the other, then ask for them together: what the solver
         remembers about each of them says nothing about their combinations"""
         r = self.r
-        if h.ref.kind != "enum":
+        if h.ref.kind != "enum" or not self.egf(h).bvs:
             return
         eg = self.egf(h)
         es = []
@@ -903,6 +1022,12 @@ class HistoryGen:
         e = q["e"]
         w = width_of(e, self.vars)
         if w == 0:
+            return
+        if w == -1:
+            V = sorted(h.ref.values(e))
+            if V:
+                self.emit({"op": "add", "h": hi, "cs": [["sne", e, ["sconst", r.choice(V)]]]})
+                self.emit(dict(q))
             return
         if q["op"] == "eval":
             V = sorted(h.ref.values(e))
@@ -1135,6 +1260,13 @@ PROFILES = {
         "echo_pct": 30,
         "keep_sat_pct": 0,
         "max_handles": 5,
+    },
+    "C11str": {   # string histories: finite domains per string variable, so the enumeration reference stays exact
+        "frontends": [("SolverStrings", 5), ("SolverCacheless", 1)],
+        "var_shapes": STR_SHAPES,
+        "length": (3, 25),
+        "weights": {"simplify": 0, "min": 3, "max": 3, "exhaust_batch": 0, "late_unsat": 0, "backend_downsize": 2, "branch": 7},
+        "reuse_pct": 35,
     },
     "C11": {
         "frontends": [("Solver", 6), ("SolverCacheless", 2), ("SolverStrings", 1)],
